@@ -111,6 +111,7 @@ type c05chan struct {
 	salt  uint64
 	id    string
 	trace []string
+	followNo int
 	hangs int // hangs reported: each costs its full budget, a few are enough
 	budgets []*vfutil.Budget
 }
@@ -150,6 +151,9 @@ func c05cNew(bk, dir string, logSize, maxSize int64) Channel {
 	if config.GetSyncerConfig().Channel == nil {
 		config.GetSyncerConfig().Channel = &config.ChannelConfig{}
 	}
+	// channel.verifyCrc is PROCESS-GLOBAL configuration read by StoreChannel.NewReader at every open:
+	// off unless the scenario turns it on after this call (scenarios whose snapshots carry no RDB footer keep it off)
+	config.GetSyncerConfig().Channel.VerifyCrc = false
 	if bk == "disk" {
 		ch := NewStoreChannel(StorerConf{InputId: "vf", Dir: dir, MaxSize: maxSize, LogSize: logSize}).(*StoreChannel)
 		ch.storer.VerifStopCollector()
@@ -277,6 +281,16 @@ func (c *c05chan) scenarioFollow(dir string, logSize int64, chunkMax int, total 
 	start := int64(100 + r.Intn(900))
 	// snapshot first (some cases); one source connection feeds both writers
 	withSnap := r.Chance(1, 2)
+	// dimension audit: the non-default option channel.verifyCrc on the real-goroutine path (stream-only cases:
+	// the generated snapshots carry no RDB checksum footer)
+	verify := !withSnap && r.Chance(1, 2)
+	c.followNo++
+	if c.followNo%3 == 1 { // forced, not left to chance: at least every third case is a verifying stream-only case
+		withSnap, verify = false, true
+	}
+	config.GetSyncerConfig().Channel.VerifyCrc = verify
+	c.s.Count(fmt.Sprintf("cfg_verifyCrc_%v_follow_%s", verify, c.bk))
+	c.note("verifyCrc=%v", verify)
 	feed := newC05cFeed()
 	preStream := 0
 	var snap []byte
@@ -506,6 +520,21 @@ func (f c05cErrFeed) Read(p []byte) (int, error) {
 	return n, nil
 }
 
+// c05cZeroFeed: a source whose Read returns (0, nil) every other call - legal for an io.Reader
+// (the ingest loops must neither append nor fail on it)
+type c05cZeroFeed struct {
+	src io.Reader
+	n   *int
+}
+
+func (f c05cZeroFeed) Read(p []byte) (int, error) {
+	*f.n++
+	if *f.n%2 == 1 {
+		return 0, nil
+	}
+	return f.src.Read(p)
+}
+
 // scenarioSourceError: the stream writer ends because its source fails; the input reconnects and
 // a new writer continues at the same offset (what RedisInput.run does after every connection
 // loss). A reader opened BELOW the boundary - before or after the replacement... here: after it,
@@ -527,6 +556,17 @@ func (c *c05chan) scenarioSourceError(dir string, first int, eof bool) {
 	if eof {
 		src = f1
 	}
+	c.s.Count(fmt.Sprintf("cfg_source_ends_by_eof_%v_%s", eof, c.bk))
+	verify := c.r.Chance(1, 2)
+	config.GetSyncerConfig().Channel.VerifyCrc = verify
+	c.s.Count(fmt.Sprintf("cfg_verifyCrc_%v_source_error_%s", verify, c.bk))
+	zero := c.r.Chance(1, 2)
+	var zn int
+	if zero {
+		src = c05cZeroFeed{src, &zn}
+		c.s.Count("cfg_source_zero_length_reads_" + c.bk)
+	}
+	c.note("verifyCrc=%v zeroReads=%v", verify, zero)
 	w1, err := ch.NewAofWritter(src, start)
 	if err != nil {
 		c.s.Violate("harness", err.Error(), c.replay())
